@@ -40,7 +40,7 @@ var crashPoints = []string{"aw.before_docs", "fw.written#1", "aw.after_docs", "f
 
 func genDocs(t *rapid.T, seq *int, ids map[model.ID]bool) []model.Doc {
 	n := rapid.IntRange(1, 12).Draw(t, "ndocs")
-	if rapid.IntRange(0, 9).Draw(t, "manydocs") == 0 {
+	if rapid.IntRange(0, 9).Draw(t, "manydocs") == 9 {
 		n = rapid.IntRange(13, 40).Draw(t, "ndocs40")
 	}
 	docs := make([]model.Doc, 0, n)
@@ -53,7 +53,7 @@ func genDocs(t *rapid.T, seq *int, ids map[model.ID]bool) []model.Doc {
 		ids[id] = true
 		size := rapid.SampledFrom([]int{0, 0, 0, 10, 100, 2000, 70000}).Draw(t, "size")
 		body := []byte(fmt.Sprintf(`{"n":%d,"p":"%s"}`, *seq, strings.Repeat(string(rune('a'+*seq%26)), size)))
-		if rapid.IntRange(0, 19).Draw(t, "tinybody") == 0 {
+		if rapid.IntRange(0, 19).Draw(t, "tinybody") == 19 {
 			body = []byte("{}")
 		}
 		docs = append(docs, model.Doc{ID: id, Body: body, Toks: gen.DocTokens(t)})
@@ -63,7 +63,7 @@ func genDocs(t *rapid.T, seq *int, ids map[model.ID]bool) []model.Doc {
 
 func genCase(t *rapid.T) Case {
 	var c Case
-	c.Fsync = rapid.IntRange(0, 3).Draw(t, "fsync") == 0
+	c.Fsync = rapid.IntRange(0, 3).Draw(t, "fsync") == 3
 	n := rapid.IntRange(3, 10).Draw(t, "nops")
 	seq := 0
 	ids := map[model.ID]bool{}
